@@ -5,7 +5,8 @@ Pipeline.run (load_and_run_pipeline replaced by a scripted raiser), the seven pa
 Pipeline._get_parse_input, pipelinerunner.run on small on-disk pipelines (initial context).
 
 Subprocess: `<python> -m pypyr …` with PYTHONPATH=$PYPYR_REPO in a scratch directory holding the
-generated pipeline files. SIGINT is delivered by the harness once the pipeline has created a marker
+generated pipeline / config files, optionally with extra environment variables and with a
+fault-injection shim (a sitecustomize.py on the child's PYTHONPATH after the tree under test; see SHIM). SIGINT is delivered by the harness once the pipeline has created a marker
 file (explicit hand-off, no sleeps for ordering); every wait has a watchdog that raises Infra.
 """
 from __future__ import annotations
@@ -59,8 +60,10 @@ def get_args_obs(argv):
 class _Patched:
     """cli.main with the runner, config.init and logger set-up replaced."""
 
-    def __init__(self, runner):
+    def __init__(self, runner, config_init=None, set_root_logger=None):
         self.runner = runner
+        self.config_init = config_init or (lambda self_: None)
+        self.set_root_logger = set_root_logger or (lambda *a, **k: None)
 
     def __enter__(self):
         import pypyr.cli
@@ -69,8 +72,8 @@ class _Patched:
         from pypyr.config import config
         self.saved = (pypyr.pipelinerunner.run, pypyr.log.logger.set_root_logger, config.__class__.init)
         pypyr.pipelinerunner.run = self.runner
-        pypyr.log.logger.set_root_logger = lambda *a, **k: None
-        config.__class__.init = lambda self_: None
+        pypyr.log.logger.set_root_logger = self.set_root_logger
+        config.__class__.init = self.config_init
         return self
 
     def __exit__(self, *exc):
@@ -96,6 +99,8 @@ def main_call_obs(argv):
                 ret = pypyr.cli.main(list(argv))
         except SystemExit as e:
             return {'usage': True} if e.code == 2 else {'exit': e.code}
+        except (KeyboardInterrupt, Exception) as e:
+            return {'uncaught': type(e).__name__}
     if not seen:
         return {'not_called': True, 'ret': ret}
     d = seen.get('py_dir')
@@ -143,9 +148,53 @@ def main_ladder_obs(raised, log_level=None):
     out, err = io.StringIO(), io.StringIO()
     argv = ['pipe'] + (['--log', str(log_level)] if log_level is not None else [])
     with _Patched(runner):
-        with contextlib.redirect_stderr(err), contextlib.redirect_stdout(out):
-            ret = pypyr.cli.main(argv)
+        try:
+            with contextlib.redirect_stderr(err), contextlib.redirect_stdout(out):
+                ret = pypyr.cli.main(argv)
+        except (KeyboardInterrupt, Exception) as e:
+            # left main uncaught: the interpreter would print a traceback; not a status of pypyr's choosing
+            return {'ret': 'uncaught:' + type(e).__name__, 'stdout': out.getvalue(), 'stderr': err.getvalue()}
     return {'ret': ret, 'stdout': out.getvalue(), 'stderr': err.getvalue()}
+
+
+def main_phases_obs(faults, log_level=None):
+    """cli.main when config.init() / set_root_logger(...) / what is below Pipeline.run raise the scripted
+    exceptions (faults: {'config'|'logger'|'run': raised}). The runner is the real Pipeline.run around a
+    scripted load_and_run_pipeline, so a Stop-family signal in the run phase takes the real `except Stop`.
+    -> {'outcome': 'returned', 'ret', 'stdout', 'stderr', 'reached': [...]} |
+       {'outcome': 'escaped', 'exc': name, 'reached': [...]}  (the exception left main)"""
+    import pypyr.cli
+    from pypyr.pipeline import Pipeline
+    from pypyr.context import Context
+    reached = []
+
+    def raiser(phase):
+        def f(*a, **k):
+            reached.append(phase)
+            exc = make_exc(faults.get(phase) or {'kind': 'nothing'})
+            if exc is not None:
+                raise exc
+        return f
+
+    def runner(**kw):
+        body = raiser('run')
+        saved = Pipeline.load_and_run_pipeline
+        Pipeline.load_and_run_pipeline = lambda self, context, parent=None: body()
+        try:
+            Pipeline(kw.get('pipeline_name', 'x')).run(Context())
+        finally:
+            Pipeline.load_and_run_pipeline = saved
+    out, err = io.StringIO(), io.StringIO()
+    argv = ['pipe'] + (['--log', str(log_level)] if log_level is not None else [])
+    with _Patched(runner, config_init=raiser('config'), set_root_logger=raiser('logger')):
+        try:
+            with contextlib.redirect_stderr(err), contextlib.redirect_stdout(out):
+                ret = pypyr.cli.main(argv)
+        except KeyboardInterrupt:
+            return {'outcome': 'escaped', 'exc': 'KeyboardInterrupt', 'reached': reached}
+        except Exception as e:
+            return {'outcome': 'escaped', 'exc': type(e).__name__, 'reached': reached}
+    return {'outcome': 'returned', 'ret': ret, 'stdout': out.getvalue(), 'stderr': err.getvalue(), 'reached': reached}
 
 
 def pipeline_run_obs(raised):
@@ -250,14 +299,114 @@ def check_import_path():
         raise common.Infra(f'python -m pypyr would import {f!r}, not {common.REPO} ({p.stderr[-300:]})')
 
 
-def child_env(home=None):
+def child_env(home=None, extra=None, shim=None):
+    """Environment of a child. The tree under test is first on PYTHONPATH; `shim` (a directory holding
+    the fault-injection sitecustomize.py) comes after it. No PYPYR_* variable is inherited."""
     env = {k: v for k, v in os.environ.items() if k in ('PATH', 'LANG', 'LC_ALL', 'LC_CTYPE', 'TMPDIR')}
-    env['PYTHONPATH'] = str(common.REPO)
+    env['PYTHONPATH'] = str(common.REPO) + (os.pathsep + shim if shim else '')
     env['PYTHONDONTWRITEBYTECODE'] = '1'
     env['PYTHONIOENCODING'] = 'utf-8'
     if home:
         env['HOME'] = home
+    if extra:
+        env.update(extra)
     return env
+
+
+# The child's fault-injection shim: imported by `site` at interpreter start-up (it is on PYTHONPATH
+# *after* the tree under test, nothing in /repo is touched). Inactive unless $C18_INJECT is set.
+#   {"at": "call", "target": "<module>:<attr path>", "exc": ..., "msg": ...}
+#       the named function raises instead of running (patched before pypyr.cli is imported);
+#   {"at": "line", "line": n, "exc": ..., "msg": ...}
+#       the exception is raised *in the frame of pypyr.cli.main* when it is about to execute source
+#       line n (a trace function that raises makes the traced frame raise at that line): the same as
+#       the first operation of that line failing - wherever that line sits relative to any `try`.
+# When the fault fires, a line is appended to $C18_INJECT_LOG.
+SHIM = r'''
+import json, os, sys
+_spec = os.environ.get('C18_INJECT')
+if _spec:
+    _spec = json.loads(_spec)
+
+    def _make():
+        name, msg = _spec['exc'], _spec.get('msg', '')
+        if name == 'KeyboardInterrupt':
+            return KeyboardInterrupt()
+        if name.startswith('pypyr.errors.'):
+            import pypyr.errors
+            return getattr(pypyr.errors, name.rsplit('.', 1)[1])(msg)
+        import builtins
+        cls = getattr(builtins, name, None)
+        if cls is None:
+            cls = type(name, (Exception,), {})
+        return cls(msg)
+
+    def _fired():
+        with open(os.environ['C18_INJECT_LOG'], 'a') as f:
+            f.write('fired\n')
+
+    if _spec['at'] == 'call':
+        import importlib
+        modname, path = _spec['target'].split(':')
+        obj = importlib.import_module(modname)
+        parts = path.split('.')
+        for p in parts[:-1]:
+            obj = getattr(obj, p)
+
+        def _raiser(*a, **k):
+            _fired()
+            raise _make()
+        setattr(obj, parts[-1], _raiser)
+    elif _spec['at'] == 'line':
+        _suffix = os.path.join('pypyr', 'cli.py')
+        _state = {'done': False}
+
+        def _local(frame, event, arg):
+            if event == 'line' and frame.f_lineno == _spec['line'] and not _state['done']:
+                _state['done'] = True
+                _fired()
+                raise _make()
+            return _local
+
+        def _global(frame, event, arg):
+            code = frame.f_code
+            if code.co_name == 'main' and code.co_filename.endswith(_suffix) and not _state['done']:
+                return _local
+            return None
+        sys.settrace(_global)
+'''
+
+
+# The harness's own reference for "what escaped, and from which phase", written from the property
+# text: the three things the command does after parsing its arguments, each watched separately.
+# Runs in a child with the same files / cwd / environment / argv as the real command.
+DISCOVER = r'''
+import json, sys
+out, argv = sys.argv[1], sys.argv[2:]
+def watch(phase, fn):
+    try:
+        fn()
+        return None
+    except KeyboardInterrupt:
+        return {'phase': phase, 'raised': {'kind': 'keyboardInterrupt'}}
+    except Exception as e:
+        return {'phase': phase, 'raised': {'kind': 'error', 'ty': type(e).__name__, 'msg': str(e)}}
+import pypyr.cli
+a = pypyr.cli.get_args(argv)
+def p_config():
+    from pypyr.config import config
+    config.init()
+def p_logger():
+    import pypyr.log.logger
+    pypyr.log.logger.set_root_logger(log_level=a.log_level, log_path=a.log_path)
+def p_run():
+    import pypyr.pipelinerunner
+    pypyr.pipelinerunner.run(pipeline_name=a.pipeline_name, args_in=a.context_args, parse_args=True, groups=a.groups,
+                             success_group=a.success_group, failure_group=a.failure_group, py_dir=a.py_dir)
+r = watch('config', p_config) or watch('logger', p_logger) or watch('run', p_run) or {'phase': None, 'raised': {'kind': 'nothing'}}
+with open(out, 'w') as f:
+    json.dump(r, f)
+'''
 
 
 def run_proc(case):
@@ -273,7 +422,19 @@ def run_proc(case):
         argv = [a.replace('@TMP@', d) for a in case['argv']]
         cwd = os.path.join(d, case.get('cwd', 'work'))
         os.makedirs(cwd, exist_ok=True)
-        p = subprocess.Popen([PY, '-m', 'pypyr', *argv], cwd=cwd, env=child_env(home=d),
+        extra = {k: v.replace('@TMP@', d) for k, v in (case.get('env') or {}).items()}
+        shim = None
+        if case.get('inject'):
+            shim = os.path.join(d, 'shim')
+            os.makedirs(shim, exist_ok=True)
+            with open(os.path.join(shim, 'sitecustomize.py'), 'w', encoding='utf-8') as f:
+                f.write(SHIM)
+            extra['C18_INJECT'] = json.dumps(case['inject'])
+            extra['C18_INJECT_LOG'] = os.path.join(d, 'inject.log')
+        cmd = [PY, '-m', 'pypyr', *argv]
+        if case.get('mode') == 'discover':
+            cmd = [PY, '-c', DISCOVER, os.path.join(d, 'discovered.json'), *argv]
+        p = subprocess.Popen(cmd, cwd=cwd, env=child_env(home=d, extra=extra, shim=shim),
                              stdout=subprocess.PIPE, stderr=subprocess.PIPE, start_new_session=True)
         try:
             if case.get('sigint'):
@@ -305,8 +466,17 @@ def run_proc(case):
             with open(pf, encoding='utf-8') as f:
                 probe = [json.loads(line) for line in f if line.strip()]
         sub = lambda s: s.replace(d, '@TMP@')
-        return {'status': p.returncode, 'stdout': sub(out.decode('utf-8', 'replace')),
-                'stderr': sub(err.decode('utf-8', 'replace')), 'probe': json.loads(sub(json.dumps(probe)))}
+        o = {'status': p.returncode, 'stdout': sub(out.decode('utf-8', 'replace')),
+             'stderr': sub(err.decode('utf-8', 'replace')), 'probe': json.loads(sub(json.dumps(probe)))}
+        if case.get('inject'):
+            o['fired'] = os.path.exists(os.path.join(d, 'inject.log'))
+        if case.get('mode') == 'discover':
+            df = os.path.join(d, 'discovered.json')
+            if not os.path.exists(df):
+                raise common.Infra(f'discover child wrote no result ({p.returncode}): {o["stderr"][-400:]}')
+            with open(df, encoding='utf-8') as f:
+                o['discovered'] = json.loads(sub(f.read()))
+        return o
     finally:
         shutil.rmtree(d, ignore_errors=True)
 
